@@ -185,6 +185,9 @@ func ruleWrapCallsOnce(c *chk.Ctx) {
 					call, ok := x.(*ssa.Call)
 					return ok && ir.IsCallTo(&call.Call, "(reflect.Value).Interface")
 				}) {
+					if ir.IsNilConst(src) {
+						continue // a result variable's zero value on the other outcome
+					}
 					if call, isCall := src.(*ssa.Call); isCall && ir.IsCallTo(&call.Call, "(reflect.Value).Interface") {
 						good = true
 					} else {
@@ -735,7 +738,7 @@ func rulePositional(c *chk.Ctx) {
 	}
 	// strict fields enabled on the success path
 	okStrict := false
-	ir.Instrs(pos, func(ins ssa.Instruction) {
+	c.P.ExtInstrs(pos, func(ins ssa.Instruction) {
 		st, ok := ins.(*ssa.Store)
 		if !ok {
 			return
